@@ -3,6 +3,7 @@
    permits held. *)
 From Oras Require Import Base.Prelude Model.CopySpec Model.CopyTop Model.CopyOpt Model.CopyCancel Model.CopyHold
   Proofs.CopySpec Proofs.CopyAcct Proofs.CopyOpt.
+From Oras Require Model.CopyImpl Proofs.CopyImplBase.
 Local Open Scope nat_scope.
 
 Ltac simp_st := cbn [set_ph ph dst cached tag returned] in *.
@@ -244,6 +245,27 @@ Proof.
       apply IH; intros n Hn; apply Hl; right; exact Hn. }
   rewrite E; [reflexivity|]. intros n Hn. apply in_seq in Hn. lia.
 Qed.
+
+(* ------------------------------------------------------------------ the same intervals as the protocol model *)
+
+(* the program counter (class) of copyGraph.fn's task in the protocol model Model/CopyImpl.v that a
+   phase of the visible-event system corresponds to; None = the task is not running (not yet
+   spawned / finished).  [lf] = the node is a leaf. *)
+Definition pc_of_phase (lf : bool) (p : phase) : option CopyImpl.pc :=
+  match p with
+  | Idle | Done | Dead => None
+  | ExQ _ | SkipP => Some CopyImpl.TExists            (* dst.Exists .. OnCopySkipped *)
+  | NeedFetch | MF1 | MF2 => Some CopyImpl.TFind      (* FindSuccessors through the proxy *)
+  | Waiting => Some (if lf then CopyImpl.TPush else CopyImpl.TGo)
+      (* leaf: straight on to the copy; non-leaf: region.End() done, successors running *)
+  | _ => Some CopyImpl.TPush                          (* copyNode / mountOrCopyNode incl. callbacks, Tag *)
+  end.
+
+(* the overlay's "certainly holds a permit" is the protocol model's [must_hold] of that counter *)
+Lemma overlay_holds_is_protocol_must_hold g n p :
+  holds_ph g n p =
+  match pc_of_phase (leaf g n) p with Some q => CopyImplBase.must_hold q | None => false end.
+Proof. unfold holds_ph. destruct p, (leaf g n); reflexivity. Qed.
 
 (* ------------------------------------------------------------------ witnesses *)
 
